@@ -9,6 +9,9 @@ checks = {
  "C03": dict(cat="model_checking", engine="vsched+explore", tech=MC, ref="DESIGN.md §5 C03",
    text="every schedule of the real hybridbuffer (Accept/Destroy caller, feeder goroutine, scripted consumer) and every consumer behaviour script (confirm, keep + hand back, stall, finish early) within the deviation bound, on a real scratch directory, over 1-3 generations and a grid of memory window x queue capacity x size limit x usable/unusable directory; conservation ledger, FIFO order, non-blocking Accept (deadlock detection), memory and disk bounds",
    note="bounded: <=5 chunks per generation, <=3 generations, deviation bound 1-3; memory bound asserted only when every Accept was issued at quiescence"),
+ "C17": dict(cat="model_checking", engine="vsched+explore", tech=MC, ref="DESIGN.md §5 C17",
+   text="all interleavings within the preemption bound of two connection threads, the real SIGHUP goroutine of run.ReloadableOrchestrator and the moment(s) of SIGHUP, at the orchestrator API with recording downstream orchestrators: distinct and reused client numbers, reload succeeding and failing, two reloads; oracles: no record handed to a shut-down pipeline set, every accepted record delivered exactly once, no sink closed by another connection, no nil-sink panic, failed reload has no effect but the failure count",
+   note="API level (the deciding level the property names); preemption bound 2 quick / 3 thorough; downstream orchestrators are recording fakes; configuration-file level of reload is exercised by run's own tests and the composed harness"),
  "C13": dict(cat="exploration", engine="seq", tech="bounded-exhaustive enumeration of inputs against an independent integer reference model (all fractions up to 6/9 digits, all offsets, all short strings over a 9-symbol alphabet, all one-edit neighbours)", ref="DESIGN.md §5 C13",
    text="complete enumeration of the stated finite input domains through the exported parseTime transform; exactness to the nanosecond against days-from-civil integer arithmetic; totality (no panic) and error+count+fallback for strings not shaped like a date-time",
    note="valid timestamps outside the enumerated date/offset/fraction grid are not covered; leap second and non-digit digit positions only checked for totality"),
